@@ -1,4 +1,4 @@
-HOOK_COMMITS = ["74bf6ff", "82c1591", "9aba3ab", "7b80cf4", "aa851e5", "4f43e9e", "0d9cb6c", "ac67f30", "f87827f", "49c2432"]
+HOOK_COMMITS = ["74bf6ff", "82c1591", "9aba3ab", "7b80cf4", "aa851e5", "4f43e9e", "0d9cb6c", "ac67f30", "f87827f", "49c2432", "902f705"]
 
 ALL = ["C%02d" % i for i in range(1, 21)]
 
@@ -61,12 +61,14 @@ TEXTS = {
                design_ref="DESIGN.md section 0.2 and section 5, C16",
                note="Trusted: Coq kernel, extraction, OCaml replayer, Go harness, hook verifPoint in mpsc.go (tag verif). Interleavings beyond one parked producer are covered by free-running oracle checks only.",
                technique="Coq refinement proofs (sequential: chunked queue = bounded FIFO; concurrent producers at reserve/publish granularity: FIFO of reservations, all interleavings) + executable model with correspondence replay and hook-parked schedules"),
-    "C17": dict(text="Coq theorem over a small-step model of ring.add/drainTo (one step per atomic access): for every schedule and any number of producers the invariant holds, hence delivered is a prefix of "
-                     "recorded (nothing unrecorded, nothing twice), at most 16 entries are held, and a drain at quiescence delivers everything recorded. The model is tied to the code by executing macro "
-                     "schedules (including producers parked between CAS and store) on the real ring and comparing status, drained values, head, tail and slot occupancy; the striped table is covered by implementation oracles.",
-               design_ref="DESIGN.md section 5, C17",
-               note="Trusted: Coq kernel, extraction, OCaml replayer, Go harness, hook verifPoint in ring.go (tag verif). Modelled: sync/atomic as sequentially consistent steps. The stripe table (expandOrRetry) is not in the Coq model.",
-               technique="Coq proof: invariant by induction over all schedules of a small-step protocol model + schedule execution on the implementation through yield points"),
+    "C17": dict(text="Coq theorems over two small-step models. Ring.v (ring.add/drainTo, one step per atomic access): for every schedule and any number of producers the invariant holds, hence delivered is a prefix of "
+                     "recorded (nothing unrecorded, nothing twice), at most 16 entries are held, and a drain at quiescence delivers everything recorded. Striped.v (the table of rings: stripe creation, table creation, expansion under the busy spin lock; "
+                     "rings abstract): for every schedule, any number of concurrent Adds and any inputs, the spin lock admits one mutator, the current table is the latest version and contains every cell of every older one, every ring ever created sits in exactly "
+                     "one cell of the current table (no stripe is lost in an expansion, a drain visits each once), and an element is in the rings exactly once iff its Add succeeded. Both models are tied to the code by executing macro schedules on the real "
+                     "structures (producers parked between CAS and store; Adds parked at 14 hook points of the table protocol and before the ring's tail CAS) and comparing status, drained values, head, tail, slots, busy flag, table length, rings and positions.",
+               design_ref="DESIGN.md section 0.2/0.3 and section 5, C17",
+               note="Trusted: Coq kernel, extraction, OCaml replayer, Go harness, hook points in ring.go and striped.go (tag verif). Modelled: sync/atomic as sequentially consistent steps; the striped model's critical sections are single steps (justified by the proved mutual exclusion); the composition of the two models (abstract rings = Ring.v rings) is informal.",
+               technique="Coq proofs: invariants by induction over all schedules of two small-step protocol models + schedule execution on the implementation through hook points with model replay"),
     "C04": dict(text="Coq theorems (PolicyBound.v on PolicyInv.v) over ALL event lists of the maintenance model (index actions, tasks reaching the write buffer in any order, reads, maintenance runs, SetMaximum): a maintenance run that starts with no task in flight "
                      "ends quiescent with the policy's total equal (mod 2^64) to the weights of the entries present and at most the maximum (or zero); evictNodes alone restores the bound and the model's loop fuel always suffices (decreasing measure over both cursors); "
                      "a node is evicted for size only while total weight > maximum, never with weight 0; an oversized node is evicted by the task that introduces it. The implementation's policy is replayed in a closed loop by the extracted model (all deques/counters compared "
